@@ -226,7 +226,7 @@ impl Check for C08 {
     }
     fn cases(&self, tier: Tier) -> u64 {
         match tier {
-            Tier::Quick => 900 + 130,
+            Tier::Quick => 900 + 130 + 39,
             Tier::Thorough => 24000,
         }
     }
@@ -262,6 +262,14 @@ impl Check for C08 {
         if let Some(j) = quick_tail {
             gp.n_events = if (j / 65) % 2 == 0 { 0 } else { gp.n_events.max(1) };
         }
+        // second directed block (39 cases): the three validator edit classes x every setup, in zod
+        // mode, in a small project that is certain to have validated fields to edit
+        let validator_tail: Option<u64> = quick_tail.filter(|j| *j >= 130).map(|j| j - 130);
+        if validator_tail.is_some() {
+            gp.n_types = 1;
+            gp.n_cmds = 1;
+            gp.n_files = 1;
+        }
         if pair_pass.is_some() {
             // rich enough that most classes find an eligible item
             gp.n_types = gp.n_types.max(4);
@@ -274,6 +282,48 @@ impl Check for C08 {
         gp.validators = true;
         gp.serde_attrs = (i / 8) % 2 == 0;
         let mut model = gen_model(&mut r.split("model"), &gp);
+        if let Some(v) = validator_tail {
+            use crate::model::{Command, Field, Item, Param, StructDef, Ty};
+            let form = format!("TailForm{}", v);
+            let fields = vec![
+                Field { name: "title".into(), ty: Ty::Prim("String".into()), public: true, rename: None, skip: false, validate: Some(if v % 2 == 0 { "length(max = 40)".into() } else { "length(min = 0, max = 40)".into() }) },
+                Field { name: "count".into(), ty: Ty::Prim("i32".into()), public: true, rename: None, skip: false, validate: Some("range(min = 1, max = 9)".into()) },
+            ];
+            // the only serde type commands can reach: every validator edit lands here
+            model.files[0].items.clear();
+            model.files[0].items.push(Item::Struct(StructDef { name: form.clone(), fields, rename_all: None, serde: true, qualified_derive: false }));
+            model.files[0].items.push(Item::Cmd(Command {
+                name: format!("submit_tail_form_{}", v),
+                params: vec![Param { name: "form".into(), ty: Ty::Named(form) }],
+                chans: vec![],
+                ret: None,
+                is_async: false,
+                short_attr: false,
+                emits: vec![],
+                is_command: true,
+            }));
+            model.files.truncate(1);
+        }
+        // a quarter of the projects (half of those generated in zod mode) spell the lower bound of their length validators as `min = 0` or
+        // leave it out (the generated names only produce min >= 1)
+        if i % 4 == 0 {
+            let mut zr = r.split("min-zero");
+            for f in model.files.iter_mut() {
+                for it in f.items.iter_mut() {
+                    if let crate::model::Item::Struct(sd) = it {
+                        for fd in sd.fields.iter_mut() {
+                            if let Some(v) = &fd.validate {
+                                if let Some(rest) = v.strip_prefix("length(min = ") {
+                                    if let Some((_, tail)) = rest.split_once(", ") {
+                                        fd.validate = Some(if zr.chance(1, 2) { format!("length(min = 0, {}", tail) } else { format!("length({}", tail) });
+                                    }
+                                }
+                            }
+                        }
+                    }
+                }
+            }
+        }
         // "any number of files": a tenth of the histories play in a project of 17..70 source files
         if (i / setups.len() as u64) % 10 == 6 {
             let mut wr = r.split("widen");
@@ -289,7 +339,7 @@ impl Check for C08 {
             cfg.visualize = true;
         }
         // stratify the mode: every class meets both generators
-        cfg.mode = if i % 2 == 0 { "zod".into() } else { "none".into() };
+        cfg.mode = if i % 2 == 0 || validator_tail.is_some() { "zod".into() } else { "none".into() };
         let mut sr = r.split("steps");
         let init_state = if quick_tail.is_some() { "current".to_string() } else { ["current", "current", "never", "other_mode"][((i / 3) % 4) as usize].to_string() };
         // all change classes in one list; the *last* change before the final run is stratified
@@ -391,7 +441,11 @@ impl Check for C08 {
                         && !cur_cfg.flag_visualize
                         && cur_cfg.file_out.is_none();
                     let other = if shared { Some(if setup.entry == Entry::Cli { Entry::Build } else { Entry::Cli }) } else { None };
-                    steps.push(Step { kind: "run".into(), label: "run".into(), desc: "non-forced run (other entry point where possible)".into(), model: None, cfg: None, out: None, proc: Some(gen_proc(&mut sr)), entry: other, at: 0, mtime_mode: String::new(), proj_style: None });
+                    // in a third of these histories the run in the middle is a call of the LIBRARY function
+                    // generate_from_config by some other program (a watcher, a test): it regenerates the
+                    // bindings for the edited sources and knows nothing of the record
+                    let middle_kind = if (i / 9) % 3 == 0 { "library" } else { "run" };
+                    steps.push(Step { kind: middle_kind.into(), label: middle_kind.into(), desc: if middle_kind == "run" { "non-forced run (other entry point where possible)".into() } else { "the library function regenerates the bindings".into() }, model: None, cfg: None, out: None, proc: Some(gen_proc(&mut sr)), entry: other, at: 0, mtime_mode: String::new(), proj_style: None });
                     steps.push(Step { kind: "edit".into(), label: format!("revert:{}", ec), desc: format!("take `{}` back", ec), model: Some(before_model.clone()), cfg: None, out: None, proc: None, entry: None, at: 0, mtime_mode: String::new(), proj_style: None });
                     break;
                 }
@@ -405,6 +459,8 @@ impl Check for C08 {
             loop {
                 let (kind, class) = if let (Some((a, b)), 0) = (pair, tries) {
                     classes[if last { b } else { a }].clone()
+                } else if let (Some(v), true) = (validator_tail, tries < 8) {
+                    ("edit".to_string(), ["validator_min_zero", "validator_message", "change_validator"][((v / setups.len() as u64) % 3) as usize].to_string())
                 } else if let (Some(j), 0) = (quick_tail, tries) {
                     ("delete_output".to_string(), DELETABLE[((j / setups.len() as u64) % 5) as usize].to_string())
                 } else if last && tries == 0 {
@@ -453,6 +509,20 @@ impl Check for C08 {
         // and once more: a second run must not un-notice anything
         if sr.chance(1, 4) {
             steps.push(Step { kind: "run".into(), label: "run".into(), desc: "non-forced run".into(), model: None, cfg: None, out: None, proc: Some(gen_proc(&mut sr)), entry: None, at: 0, mtime_mode: String::new(), proj_style: None });
+        }
+        // In an eleventh of the histories every run is a call of the LIBRARY function
+        // generate_from_config (and one more such call comes first): a non-forced run like the
+        // others as far as the property goes - whatever it decides to skip, what it leaves must be
+        // current. (It writes no dependency report: the bindings and the record are compared.)
+        if i % 11 == 5 && pair.is_none() && quick_tail.is_none() {
+            for st in steps.iter_mut() {
+                if st.kind == "run" {
+                    st.kind = "run_lib".into();
+                    st.entry = None;
+                }
+            }
+            let mut lr = r.split("library-first");
+            steps.insert(0, Step { kind: "run_lib".into(), label: "run".into(), desc: "library call".into(), model: None, cfg: None, out: None, proc: Some(gen_proc(&mut lr)), entry: None, at: 0, mtime_mode: String::new(), proj_style: None });
         }
         let mut p_init = gen_proc(&mut r.split("init"));
         // one monotone simulated timeline for the whole history
@@ -587,7 +657,17 @@ impl Check for C08 {
                         since_last_run.push(format!("tamper:{}", step.label));
                     }
                 }
-                "run" => {
+                "library" => {
+                    let p = step.proc.clone().unwrap_or_else(|| ProcSpec::plain(7));
+                    let ro = scen::run_library(env, &w, &setup, &cfg, p, false);
+                    co.count("processes", 1);
+                    co.count("library_runs_between_the_judged_runs", 1);
+                    if ro.res.status.is_ok() {
+                        since_last_run.push("other:library_run".into());
+                    }
+                }
+                "run" | "run_lib" => {
+                    let via_lib = step.kind == "run_lib";
                     let mut s = setup.clone();
                     if let Some(e) = step.entry {
                         s.entry = e;
@@ -601,7 +681,7 @@ impl Check for C08 {
                     if step.at > 0 {
                         last_run_at = step.at;
                     }
-                    let ro = env.run(&w, &cwd, p, call);
+                    let ro = if via_lib { scen::run_library(env, &w, &s, &cfg, p, false) } else { env.run(&w, &cwd, p, call) };
                     n_runs += 1;
                     co.count("processes", 1);
                     co.count("non_forced_runs", 1);
@@ -622,6 +702,9 @@ impl Check for C08 {
                     co.count("processes", 2);
                     let hit = !ro.res.regenerated();
                     let files = scen::out_files(&w, &s);
+                    // (the library writes no dependency report: what it is held to are the bindings)
+                    let reference: Files = if via_lib { reference.into_iter().filter(|(n, _)| !n.starts_with("dependency-graph")).collect() } else { reference };
+                    let files: Files = if via_lib { files.into_iter().filter(|(n, _)| !n.starts_with("dependency-graph")).collect() } else { files };
                     let bad = canon::compare_to_reference(&files, &reference, Cmp::Canon, true);
                     // was the output affected by what happened since the last run? (measured)
                     let affecting = match &ref_at_last_run {
